@@ -259,6 +259,19 @@ void start_searching(Uci* uci)
         uci->search->go();
 }
 
+namespace
+{
+bool is_go_argument(const std::string& token)
+{
+    static const char* const arguments[] = {
+        "searchmoves", "ponder", "wtime",    "btime", "winc",     "binc",
+        "movestogo",   "depth",  "nodes",    "mate",  "movetime", "infinite"};
+    for (const char* argument : arguments)
+        if (token == argument) return true;
+    return false;
+}
+}  // namespace
+
 bool Uci::go_command(std::istringstream& istream)
 {
     Limits limits;
@@ -290,10 +303,21 @@ bool Uci::go_command(std::istringstream& istream)
             limits.infinite = true;
         else if (token == "searchmoves")
         {
+            // the move list ends at the next go argument (or at the end of
+            // the line): searchmoves need not be the last argument
+            std::streampos pos = istream.tellg();
             while (istream >> token)
+            {
+                if (is_go_argument(token))
+                {
+                    istream.seekg(pos);
+                    break;
+                }
                 VERIF_BOUND(limits.searchmovesnum, MAX_MOVES, "uci.cpp:searchmoves"),
                 limits.searchmoves[limits.searchmovesnum++] =
                     position.parse_uci(token);
+                pos = istream.tellg();
+            }
         }
     }
 
